@@ -375,7 +375,7 @@ B("Q4.catalogue_circles", ["C13", "C06", "C12"], CM, "bounded_catalogue_circles"
   "22 drawings x offsets (0..6)x(0..4) quick / (0..60)x(0..40) thorough x {alone, with unrelated text}", timeout=900, timeout_thorough=7200)
 
 SPAN = "buffer/cell_buffer/span.rs"
-K("A2.span_merge", ["C10", "C04"], SPAN, "check_span_merge", "Span::can_merge / is_adjacent / merge / merge_no_check",
+K("A2.span_merge", ["C10", "C04", "C03"], SPAN, "check_span_merge", "Span::can_merge / is_adjacent / merge / merge_no_check",
   "can_merge <=> an adjacent pair of cells; merge = concatenation in order; spans separated by a blank column or row never merge",
   kind="bounded", bound="spans of 3 and 2 cells, all valid cells symbolic", timeout=600)
 K("N2.span_bounds_localize", ["C12", "C01", "C06", "C13"], SPAN, "check_span_bounds_localize", "Span::bounds / top_left / new / localize",
@@ -385,10 +385,10 @@ K("A2.span_extract_bounded", ["C10"], SPAN, "check_span_extract_bounded", "Span:
   "inclusive box tests per cell", kind="bounded", bound="spans of 3 cells", timeout=600)
 
 FTREE = "buffer/fragment_buffer/fragment_tree.rs"
-B("C16.enclose_tags", ["C16", "C10"], FTREE, "bounded_enclose_tags",
+B("C16.enclose_tags", ["C16", "C10", "C09"], FTREE, "bounded_enclose_tags",
   "FragmentTree::enclose_fragments / enclose_recursive / second_pass_enclose / enclose_deep_first / Fragment::as_css_tag / can_fit (real bodies)",
   "a tag inside a rectangle or circle adds its names to the innermost enclosing shape and is not rendered; inside no shape it stays text; "
-  "malformed tags and other text are rendered once, unaffected; every shape occurs exactly once",
+  "malformed tags and other text are rendered once, unaffected; every fragment occurs exactly once in the forest (also with overlapping, non-nested shapes)",
   "5 shapes (three boxes nested in each other, sibling box, circle) x 6 placements x 6 contents x 4 shape orders (precondition: shapes before texts, an enclosing shape before its content - the order endorse_to_fragment_spans produces) = 144 cases; "
   "Kani: the recursive Vec<FragmentTree> with Strings did not finish in 900 s",
   timeout=600)
@@ -440,7 +440,7 @@ B("S7.no_duplicate_fragment", ["C09"], FB, "bounded_no_duplicate_fragment_in_cel
 B("RN.renderers", ["C11", "C05", "C14", "C02"], FRAG, "bounded_renderers", "From<Line|MarkerLine|Circle|Rect|Arc|Polygon> for Node",
   "numeric attributes are exactly the fields (x1,y1,x2,y2 / cx,cy,r / x,y,width,height,rx / path d / points); classes follow the flags and markers",
   "5^3 coordinate triples x 2 flag values, 7 shapes each (sauron Node construction is beyond Kani)")
-B("sink.text_node", ["C02", "C08", "C04"], FRAG, "bounded_text_node", "From<Text> for Node / From<CellText> for Node / escape_html_text",
+B("sink.text_node", ["C02", "C08", "C04", "C15"], FRAG, "bounded_text_node", "From<Text> for Node / From<CellText> for Node / escape_html_text",
   "a text element has exactly x, y and one text child = concatenation of replace_html_char over the characters",
   "all strings of length 1..3 over {<,&,>,\",',a,e-acute,wide CJK,NUL,U+0001,space} (1463 strings)")
 
@@ -580,7 +580,7 @@ B("C17.trailing_blanks", ["C17", "C15"], CB, "bounded_trailing_blanks", "From<&s
   "trailing spaces / tabs, with LF or CRLF, change neither the cells nor the quoted texts of a row, also with an odd number of quotes",
   "all rows of <= 4 tokens over {a, \", -, space, wide CJK} x 4 trailing-blank variants x {LF, CRLF}")
 
-B("A3.spans_are_components", ["C10", "C04"], SPAN, "bounded_spans_are_components", "From<&CellBuffer> for Vec<Span> (Span::new / merge_recursive / can_merge)",
+B("A3.spans_are_components", ["C10", "C04", "C03"], SPAN, "bounded_spans_are_components", "From<&CellBuffer> for Vec<Span> (Span::new / merge_recursive / can_merge)",
   "the spans are exactly the connected components of the occupied cells under 8-neighbour adjacency: a partition, nothing joined across a blank column or row",
   "exhaustive: all 4096 occupancy patterns of a 4 x 3 grid")
 
